@@ -1,4 +1,5 @@
 import Proofs.C10.Tap
+import Proofs.C10.Checker
 import Props.C09
 /-!
 # C10 — what the library builds and signs, its own engine accepts; tampering is rejected
@@ -239,6 +240,52 @@ theorem signer_digest_is_engine_digest_p2wpkh {α : Type} (C : Crypto α) (cx : 
   have := (signer_script_code_p2wpkh h (List.replicate 20 0) hl (by simp) sigs).1
   simp [ecdsaDigest, this, engineEcdsaDigest]
 
+/-! ## the composed checker accepts what `sign` makes: closure without an oracle hypothesis -/
+
+/-- ECDSA: `DER(sign(challenge(digest the engine recomputes), q, k, low-s)) ‖ hash-type byte` passes the composed
+    `CheckECDSASignature` for any SEC spelling of `q·G`, in every `Lawful` group (C02-T1 + DER round trip). -/
+theorem sign_passes_checkECDSA {α G : Type} [AddCommGroup G] (C : Crypto α) (L : Lawful C.o G) (cx : TxCtx) (sc : Bytes)
+    (sv : SigVersion) (ht : Nat) (hht : ht < 256) {q k r s kid : Int} (hk : 0 < k ∧ k < C.o.n)
+    (pk : Bytes) (Q : α) (hp : C.parsePub pk = some Q) (hQ : L.abs Q = q • L.abs C.o.gen)
+    (hsign : Ecdsa.signRecoverable C.o (Rfc6979.challenge C.o.n (engineEcdsaDigest C cx sc sv ht)) q k true =
+      .ok (r, s, kid))
+    (der : Bytes) (hder : Der.serialize r s = .ok der) (hmax : der.length ≤ Gen.VarInt.MAX_SIZE) :
+    checkECDSA C cx (der ++ [UInt8.ofNat ht]) pk sc sv = .ok true :=
+  Spend.sign_passes_checkECDSA C L cx sc sv ht hht hk pk Q hp hQ hsign der hder hmax
+
+/-- BIP340: the 64 bytes of `ssa.sign_(message the engine recomputes, q)` followed by the hash-type byte unless DEFAULT
+    pass the composed `CheckSchnorrSignature` for the x-only key of `q·G` (C03-T1 + the 64-byte codec); key path
+    (`sv = TAPROOT`, `q` the tweaked key) and script path (`sv = TAPSCRIPT`, `q` the leaf key) alike. -/
+theorem sign_passes_checkSchnorr {α G : Type} [AddCommGroup G] (C : Crypto α) (L : Lawful C.o G)
+    (hps : C.prm.pSize = 32) (hns : C.prm.nSize = 32) (hp : C.o.p ≤ 2 ^ 256) (hn : C.o.n ≤ 2 ^ 256)
+    (cx : TxCtx) (sv : SigVersion) (ht pos : Nat) (hht : ht < 256)
+    (hdef : bip341Defined cx.tx cx.nIn cx.spent ht = true)
+    (fuel : Nat) (q : Int) (aux : Bytes) (sg : Schnorr.Sig)
+    (hsign : Schnorr.sign C.o C.prm fuel (engineTapDigest C cx sv ht pos) q aux = .ok sg)
+    (sig64 : Bytes) (hser : Schnorr.serialize C.o C.prm sg = .ok sig64)
+    (pubkey : Bytes) (hpk : ((ofBE pubkey : Nat) : Int) = C.o.x (C.o.mul q C.o.gen)) :
+    checkSchnorr C cx (sig64 ++ (if ht = 0 then [] else [UInt8.ofNat ht])) pubkey sv pos = none :=
+  Spend.sign_passes_checkSchnorr C L hps hns hp hn cx sv ht pos hht hdef fuel q aux sg hsign sig64 hser pubkey hpk
+
+/-- T1 end to end (p2wpkh): in the COMPOSED engine (`Spend.envOf`: C08 evaluator, C09 digests, C02 verification) over any
+    `Lawful` group, the finalizer's spend of a p2wpkh output with a signature the model's signer makes over the BIP143
+    digest of THIS transaction is accepted under every flag set with WITNESS.  What is left as hypothesis is about bytes
+    only: the program is the hash160 of the key and not "false", the key is compressed and parses to `q·G`, and the
+    DER signature passes Core's encoding checks under these flags (BIP66 / low-s / defined hash type). -/
+theorem closure_p2wpkh_signed {α G : Type} [AddCommGroup G] (C : Crypto α) (L : Lawful C.o G) (vk : Bytes → Bool)
+    (flags : Nat) (cx : TxCtx) (h pk : Bytes) (Q : α) (ht : Nat) (hht : ht < 256) {q k r s kid : Int}
+    (hl : h.length = 20) (hW : has flags FLAG_WITNESS = true) (hnz : castToBool h = true)
+    (hh : C.ripemd160 (C.S pk) = h) (hpk : isCompressedPubKey pk = true)
+    (hp : C.parsePub pk = some Q) (hQ : L.abs Q = q • L.abs C.o.gen) (hk : 0 < k ∧ k < C.o.n)
+    (hsign : Ecdsa.signRecoverable C.o
+      (Rfc6979.challenge C.o.n (engineEcdsaDigest C cx (p2pkh h) .WITNESS_V0 ht)) q k true = .ok (r, s, kid))
+    (der : Bytes) (hder : Der.serialize r s = .ok der) (hmax : der.length ≤ Gen.VarInt.MAX_SIZE)
+    (henc : checkSignatureEncoding flags (der ++ [UInt8.ofNat ht]) = .ok ()) (hslen : (der ++ [UInt8.ofNat ht]).length ≤ 520) :
+    ∃ ss wit, finalizedInput vk ⟨some (p2wpkh h), [], [], [(pk, der ++ [UInt8.ofNat ht])]⟩ = .ok (ss, wit) ∧
+      verifyScript (envOf C flags cx) ss (p2wpkh h) wit = .ok () :=
+  closure_p2wpkh vk (envOf C flags cx) h _ pk hl hW hnz hh henc hslen hpk
+    (Spend.sign_passes_checkECDSA C L cx (p2pkh h) .WITNESS_V0 ht hht hk pk Q hp hQ hsign der hder hmax)
+
 /-! ## T2 — tampering changes the message (or exhibits a collision) -/
 
 /-- T2 (legacy inputs: p2pk, p2pkh, bare and p2sh multisig).  If the engine recomputes the SAME digest for input `i`
@@ -352,7 +399,7 @@ NOT PROVED (full statements kept; the executable composition `Spend.verifyInput`
 finished input and on tampered ones, is what covers them):
 * closure_multisig (bare / p2sh / p2wsh / p2sh-p2wsh): for `1 ≤ k ≤ n ≤ 20`, keys `ks`, a sublist of `k` signers in key
   order: `verifyScript env (finalize …) = ok` -- by induction on `ks` through `multisigLoop`;
-* checker completeness: `checkECDSA C cx (DER (sign …) ‖ ht) pk sc sv = ok true` from `Props.C02.ecdsa_sign_verifies` and
-  `Props.C02.der_parse_serialize` (needs: the engine's digest = the signer's, proved above for p2wpkh).
+* that `Der.serialize r s ‖ ht` passes `checkSignatureEncoding` (BIP66 validity of the DER writer's output, low s, defined
+  hash type) is a hypothesis of the closures; it is observed on every signature of every flow (`c10.verdict`).
 -/
 end Props.C10
